@@ -41,6 +41,14 @@ def setup_worker(tier=None):
     names.wrap_method(C.Constraints, m, fac(m))
 
 
+def _draw_seed(rng):
+  """An integer random_state: mostly arbitrary, one time in five a boundary
+  value (0 is falsy; 2**32 - 2 leaves room for the harness's seed + 1)."""
+  if rng.rand() < 0.2:
+    return int(rng.choice([0, 0, 1, 2**32 - 2]))
+  return int(rng.randint(0, 2**31 - 1))
+
+
 def cases(tier, seed):
   n = 16 if tier == 'quick' else 800
   per = 20 if tier == 'quick' else 40
@@ -137,7 +145,7 @@ def _pairs_case(j, Constraints, wrap_pairs, y, rng):
     return
   nreq = int(rng.choice([1, 5, 50, 500]))
   same_length = bool(rng.rand() < 0.4)
-  seed = int(rng.randint(0, 2**31 - 1))
+  seed = _draw_seed(rng)
   det = {'y': y, 'n_constraints': nreq, 'same_length': same_length,
          'seed': seed}
   try:
@@ -231,7 +239,7 @@ def _chunks_case(j, Constraints, y, rng):
   chunk_size = int(rng.choice([1, 2, 2, 3, 4]))
   feas = int(np.sum(cnt // chunk_size))
   n_chunks = int(max(1, feas + rng.choice([-3, -1, 0, 0, 1, 2])))
-  seed = int(rng.randint(0, 2**31 - 1))
+  seed = _draw_seed(rng)
   det = {'y': y, 'n_chunks': n_chunks, 'chunk_size': chunk_size,
          'feasible_max': feas, 'seed': seed}
   try:
